@@ -11,9 +11,9 @@ use std::{
 use wac_graph::{
     types::{
         BorrowedPackageKey, DefinedType, Enum, ExternKind, Flags, FuncKind, FuncType, FuncTypeId,
-        Interface, InterfaceId, ItemKind, Package, PackageKey, PrimitiveType, Record, Resource,
-        ResourceAlias, ResourceId, SubtypeChecker, Type, UsedType, ValueType, Variant, World,
-        WorldId,
+        Interface, InterfaceId, ItemKind, NameMap, NameMapNoIntern, Package, PackageKey,
+        PrimitiveType, Record, Resource, ResourceAlias, ResourceId, SubtypeChecker, Type, UsedType,
+        ValueType, Variant, World, WorldId,
     },
     CompositionGraph, DefineTypeError, EncodeError, EncodeOptions, ExportError, ImportError,
     InstantiationArgumentError, NodeId, NodeKind, PackageId, Processor,
@@ -2691,22 +2691,34 @@ impl<'a> AstResolver<'a> {
         world: WorldId,
     ) -> ResolutionResult<()> {
         let world = &state.graph.types()[world];
-        // The interfaces imported implicitly through uses.
-        let implicit_imported_interfaces = world.implicit_imported_interfaces(state.graph.types());
+        // The interfaces imported implicitly through uses and the world's
+        // own imports; the name map gives the same semver-compatible
+        // matching of names as `wac_types::validate_target`
+        let mut world_imports = NameMap::default();
+        for (name, kind) in world.implicit_imported_interfaces(state.graph.types()) {
+            // The unwrap here is safe because shadowing is allowed
+            world_imports
+                .insert(name, &mut NameMapNoIntern, true, kind)
+                .unwrap();
+        }
+        for (name, kind) in &world.imports {
+            world_imports
+                .insert(name, &mut NameMapNoIntern, true, *kind)
+                .unwrap();
+        }
         let mut cache = Default::default();
         let mut checker = SubtypeChecker::new(&mut cache);
 
         // The output is allowed to import a subset of the world's imports
         checker.invert();
         for (name, item_kind, import_node) in state.graph.imports() {
-            let expected = implicit_imported_interfaces
-                .get(name)
-                .or_else(|| world.imports.get(name))
-                .ok_or_else(|| Error::ImportNotInTarget {
+            let expected = world_imports.get(name, &NameMapNoIntern).ok_or_else(|| {
+                Error::ImportNotInTarget {
                     name: name.to_owned(),
                     world: path.string.to_owned(),
                     span: import_node.map(|n| state.import_spans[&n]),
-                })?;
+                }
+            })?;
 
             checker
                 .is_subtype(
